@@ -46,7 +46,8 @@ def add_pressure_control(rng, spec):
                                             "from_junction": c if rev else a, "to_junction": a if rev else c,
                                             "controlled_junction": a if rev else c,
                                             "controlled_p_bar": 0.8 * tj["pn_bar"],
-                                            "control_active": rng.random() < 0.8, "in_service": True}])
+                                            "control_active": rng.random() < 0.8, "in_service": True,
+                                            "check_controllability": False}])
     scale = 0.002 if spec["fluid"] != "water" else 0.05
     ops.append(["create_sink", {"index": _new_label(spec, "create_sink"), "junction": c, "mdot_kg_per_s": scale}])
     return spec
@@ -130,6 +131,61 @@ def classify_conn_mismatch(ctx, sp, flags, bits):
     ctx.violation({"fn": "identify_active_nodes_branches", "kind": kind}, what,
                   {"kind": "connectivity", "net": sp, "flags": [list(f) for f in flags], "bits": [int(x) for x in bits]})
     return True
+
+
+def classify_red_mismatch(ctx, sp, flags, bits):
+    """the property-level statement of the reduction evaluated on the real reduce_pit output"""
+    n, b = cc.idx()
+    net = gen.build(sp)
+    cc.apply_flags(net, flags, bits)
+    _, info, obs = cc.conn_case(net, check=True)
+    if obs is None:
+        return False
+    s = drive.psetup()
+    found = False
+    for mode in ("hydraulics",):
+        s.reduce_pit(net, mode=mode)
+        L = net["_lookups"]
+        nm, bm = L["node_active_" + mode], L["branch_active_" + mode]
+        rank = np.cumsum(nm) - 1
+        bp, abp = net["_pit"]["branch"], net["_active_pit"]["branch"]
+        anp = net["_active_pit"]["node"]
+        what = None
+        exp_f = rank[bp[bm, b.FROM_NODE].astype(int)]
+        exp_t = rank[bp[bm, b.TO_NODE].astype(int)]
+        if len(abp) != int(bm.sum()) or len(anp) != int(nm.sum()):
+            what = ("shape", "active pit has %d/%d rows for %d/%d marked" % (len(anp), len(abp), nm.sum(), bm.sum()))
+        elif not (np.array_equal(abp[:, b.FROM_NODE], exp_f) and np.array_equal(abp[:, b.TO_NODE], exp_t)):
+            what = ("from_to", "active FROM_NODE/TO_NODE %r / %r, the kept node rows are at %r / %r" % (
+                abp[:, b.FROM_NODE].astype(int).tolist()[:12], abp[:, b.TO_NODE].astype(int).tolist()[:12],
+                exp_f.tolist()[:12], exp_t.tolist()[:12]))
+        elif np.any(exp_f < 0) or np.any(exp_t >= len(anp)):
+            what = ("range", "a kept branch points outside the active node pit")
+        else:
+            f, t = L["node_from_to"]["junction"]
+            lu = L["node_index_active_" + mode]["junction"]
+            for k, lab in enumerate(net.junction.index.values):
+                e = rank[f + k] if nm[f + k] else -1
+                if lu[lab] != e:
+                    what = ("index_active", "node_index_active[junction][%d] = %d, the row is %s" % (
+                        lab, lu[lab], ("at active position %d" % e) if e >= 0 else "not active"))
+                    break
+            if what is None:
+                cnt = 0
+                for _, tbl in sorted(L["branch_table"]["n2t"].items()):
+                    f, t = L["branch_from_to"][tbl]
+                    le = int(bm[f:t].sum())
+                    got = tuple(int(x) for x in L["branch_from_to_active_" + mode][tbl])
+                    if got != (cnt, cnt + le):
+                        what = ("from_to_active", "branch_from_to_active[%s] = %r, the kept rows are [%d, %d)" % (
+                            tbl, got, cnt, cnt + le))
+                        break
+                    cnt += le
+        if what:
+            found = True
+            ctx.violation({"fn": "reduce_pit", "kind": what[0]}, what[1],
+                          {"kind": "reduce", "net": sp, "flags": [list(f) for f in flags], "bits": [int(x) for x in bits]})
+    return found
 
 
 # ------------------------------------------------------------------------------ monitors
@@ -217,6 +273,7 @@ def deleted_net(net):
     """the net with every unsupplied / out-of-service element physically removed (pandas drop)"""
     masks = table_masks(net)
     n2 = copy.deepcopy(net)
+    no_twin = False
     keep_j = set(net.junction.index[masks["junction"]].tolist())
     n2.junction.drop(index=[j for j in net.junction.index if j not in keep_j], inplace=True)
     if "junction_geodata" in n2 and len(n2.junction_geodata):
@@ -233,6 +290,13 @@ def deleted_net(net):
         v = n2.valve
         bad = v.index[(v.et == "pi") & v.element.isin(list(dropped_pipes))].tolist()
         n2.valve.drop(index=bad, inplace=True)
+    if "valve" in net and len(net.valve):
+        # a closed junction-pipe valve whose pipe stays: removing the valve row would re-attach the pipe to the
+        # junction, i.e. change the physical system - such a net has no "deleted" twin
+        v0 = net.valve
+        gone = [i for i in v0.index if i not in set(n2.valve.index.tolist())]
+        if any(v0.at[i, "et"] == "pi" and int(v0.at[i, "element"]) not in dropped_pipes for i in gone):
+            no_twin = True
     for tbl in NODE_ELEMENTS:
         if tbl in n2 and len(n2[tbl]):
             d = n2[tbl]
@@ -244,11 +308,34 @@ def deleted_net(net):
                 del n2[k]
             except Exception:  # noqa: BLE001
                 pass
+    if no_twin:
+        n2["_c04_no_twin"] = True
     return n2
+
+
+def dangling_after_deletion(n2):
+    """a kept branch that refers to a deleted junction (a pipe that ends at a closed pi valve keeps its
+    far junction in the table): the deleted net is not a well-formed net, the comparison is skipped"""
+    js = set(n2.junction.index.tolist())
+    for tbl in BRANCH_TABLES:
+        if tbl in n2 and len(n2[tbl]):
+            for col in ("from_junction", "to_junction", "junction", "return_junction", "flow_junction",
+                        "controlled_junction"):
+                if col in n2[tbl].columns and not set(int(x) for x in n2[tbl][col].values) <= js:
+                    return True
+            if tbl == "valve":
+                v = n2.valve
+                if not set(int(x) for x in v.element[v.et == "ju"].values) <= js:
+                    return True
+    return False
 
 
 def deletion_monitor(ctx, net, snap_a, spec, changed, kw):
     n2 = deleted_net(net)
+    if n2.pop("_c04_no_twin", False) or dangling_after_deletion(n2):
+        ctx.count("monitor_deleted_net_skipped_dangling")
+        return True
+    ctx.count("monitor_deleted_net_compared")
     st, msg = drive.run(n2, **kw)
     if st != "ok":
         ctx.violation({"monitor": "deleted_net", "outcome": st},
@@ -260,6 +347,22 @@ def deletion_monitor(ctx, net, snap_a, spec, changed, kw):
     diffs = drive.same_results(snap_b, snap_a, rtol=RTOL, atol=ATOL)
     diffs = [d for d in diffs if "missing" not in d[1] or "row" not in d[1]]
     if diffs:
+        # a deleted element may have seeded a start value (an inactive pressure control sets PINIT of its controlled
+        # junction): the two Newton runs then agree only up to the solver tolerance.  Re-run both at round-off
+        # tolerances; a difference of the solved systems would persist.
+        ctx.count("monitor_deleted_net_rerun_tight")
+        na = copy.deepcopy(net)
+        sa, _ = drive.run(na, **cm.tight(kw))
+        sb, _ = drive.run(n2, **cm.tight(kw))
+        if sa != "ok" or sb != "ok":
+            ctx.count("monitor_deleted_net_tight_not_converged")
+            return True
+        snap_a2, snap_b2 = drive.snapshot_results(na), drive.snapshot_results(n2)
+        # stagnant meshes (zero slope of the friction law at zero flow) leave ~1e-10 kg/s undetermined even at
+        # round-off tolerances: resolution of this second pass is 1e-6 relative / 1e-8 absolute
+        diffs = drive.same_results(snap_b2, snap_a2, rtol=1e-6, atol=1e-8)
+        diffs = [d for d in diffs if ("missing" not in d[1] or "row" not in d[1]) and not stagnant(d, snap_a2)]
+    if diffs:
         t, d = diffs[0]
         ctx.violation({"monitor": "deleted_net", "table": t, "column": d.split("[")[0]},
                       "results of the supplied part change when the unsupplied / out-of-service elements are deleted: "
@@ -267,6 +370,20 @@ def deletion_monitor(ctx, net, snap_a, spec, changed, kw):
                       {"kind": "deleted_net", "net": spec, "changed": changed, "options": kw})
         return False
     return True
+
+
+def stagnant(diff, snap):
+    """lambda / reynolds of a branch that carries no flow (|mdot| < 1e-6) amplify round-off: not compared"""
+    t, d = diff
+    col = d.split("[")[0]
+    if col not in ("lambda", "reynolds") or "mdot_from_kg_per_s" not in snap.get(t, {}).get("cols", {}):
+        return False
+    try:
+        lab = int(d.split("[")[1].split("]")[0])
+        m = snap[t]["cols"]["mdot_from_kg_per_s"][snap[t]["index"].index(lab)]
+    except (ValueError, IndexError):
+        return False
+    return m is not None and abs(m) < 1e-6
 
 
 def no_supply_monitor(ctx, spec):
@@ -288,7 +405,7 @@ def no_supply_monitor(ctx, spec):
 
 def monitors(ctx, widen=False):
     rng = ctx.rng
-    n = 16 if ctx.quick else 400
+    n = 40 if ctx.quick else 400
     if widen:
         n *= 3
     for i in range(n):
@@ -348,6 +465,9 @@ def replay(ctx, rp):
     if kind == "connectivity":
         found = classify_conn_mismatch(ctx, rp["net"], [tuple(f) for f in rp["flags"]], rp["bits"])
         print("replay connectivity: %s" % ("violation reproduced" if found else "masks agree with reachability"))
+    elif kind == "reduce":
+        found = classify_red_mismatch(ctx, rp["net"], [tuple(f) for f in rp["flags"]], rp["bits"])
+        print("replay reduce: %s" % ("violation reproduced" if found else "reduction agrees with the property"))
     elif kind in ("nan_pattern", "deleted_net"):
         st = one_monitor_case(ctx, ctx.rng, rp["net"], changed=rp.get("changed", []))
         print("replay %s: run %s, violations now %d" % (kind, st, len(ctx.violations)))
